@@ -318,7 +318,7 @@ func init() {
 		}
 		m := &basetypes.MsgCreateProject{Admin: a.Addr, ClassId: c.Id, Metadata: g.metadata(), Jurisdiction: g.jurisdiction()}
 		if g.R.Chance(0.5) {
-			m.ReferenceId = Pick(g.R, []string{"VCS-001", "VCS-002", "R1", "ref" + fmt.Sprint(g.R.Intn(6))})
+			m.ReferenceId = Pick(g.R, append([]string{"ref" + fmt.Sprint(g.R.Intn(6))}, refIDs...))
 		}
 		if mode == ModeHostile && g.R.Chance(0.4) {
 			m.ClassId = neighbourID(g.R, c.Id)
@@ -571,7 +571,7 @@ func init() {
 			ot.Contract = ethAddr(g.R.Intn(4))
 		}
 		m := &basetypes.MsgBridgeReceive{Issuer: a.Addr, ClassId: c.Id,
-			Project:  &basetypes.MsgBridgeReceive_Project{ReferenceId: Pick(g.R, []string{"VCS-001", "VCS-002", "R1", "BR-7"}), Jurisdiction: g.jurisdiction(), Metadata: "bridged project"},
+			Project:  &basetypes.MsgBridgeReceive_Project{ReferenceId: Pick(g.R, refIDs), Jurisdiction: g.jurisdiction(), Metadata: "bridged project"},
 			Batch:    &basetypes.MsgBridgeReceive_Batch{Recipient: g.user().Addr, Amount: g.issueAmount(6), StartDate: &s, EndDate: &e, Metadata: "bridged batch"},
 			OriginTx: ot}
 		if mode == ModeValid && (m.Batch.Amount == "0" || m.Batch.Amount == "") {
@@ -651,7 +651,7 @@ func init() {
 	// ---- basket ----
 	regKind("BasketCreate", false, func(g *Gen, a *Actor, v *Snapshot, mode int) sdk.Msg {
 		ab := g.creditTypeAbbrev(v, mode)
-		m := &baskettypes.MsgCreate{Curator: a.Addr, Name: Pick(g.R, []string{"NCT", "BCT", "ECO", "XB1", "Abc", "N" + fmt.Sprint(g.R.Intn(50))}), Description: "basket", DisableAutoRetire: g.R.Chance(0.5), CreditTypeAbbrev: ab}
+		m := &baskettypes.MsgCreate{Curator: a.Addr, Name: Pick(g.R, []string{"NCT", "BCT", "ECO", "XB1", "Abc", "Abcd", "abc", "NCT1", "ABCDEFGH", "N" + fmt.Sprint(g.R.Intn(50))}), Description: "basket", DisableAutoRetire: g.R.Chance(0.5), CreditTypeAbbrev: ab}
 		for _, c := range v.Classes {
 			if (c.CreditTypeAbbrev == ab || mode != ModeValid) && g.R.Chance(0.7) {
 				m.AllowedClasses = append(m.AllowedClasses, c.Id)
@@ -845,6 +845,24 @@ func init() {
 		m := &markettypes.MsgSell{Seller: a.Addr}
 		n := g.R.Range(1, 3)
 		md := g.oneAspect(mode, "amount", "denom", "expiration", "price")
+		if mode == ModeValid && g.R.Chance(0.04) {
+			// bulk listing: dozens of small orders that expire within days of each other, so that
+			// one later block has many orders (of one or several batches) to expire at once
+			if b, bal := g.targetBatch(v, a, mode); b != nil {
+				p := g.precOf(v, b)
+				k := g.R.Range(20, 75)
+				q := truncTo(new(big.Rat).Quo(bal, RatI64(int64(k+1))), p)
+				if q.Sign() > 0 && len(FmtDec(q, p)) <= 20 {
+					den := g.askDenom(v, ModeValid)
+					for i := 0; i < k; i++ {
+						t := v.Time.Add(time.Duration(g.R.Range(1, 700000)) * time.Second)
+						m.Orders = append(m.Orders, &markettypes.MsgSell_Order{BatchDenom: b.Denom, Quantity: FmtDec(q, p), AskPrice: coinP(den, g.price()), DisableAutoRetire: g.R.Chance(0.5), Expiration: &t})
+					}
+					g.W.Probe("bulk_sell_generated")
+					return m
+				}
+			}
+		}
 		for i := 0; i < n; i++ {
 			b, bal := g.targetBatch(v, a, mode)
 			if b == nil {
@@ -973,11 +991,15 @@ func init() {
 		return m
 	})
 	regKind("AddDenom", true, func(g *Gen, a *Actor, v *Snapshot, mode int) sdk.Msg {
-		d := Pick(g.R, workDenoms)
-		return &markettypes.MsgAddAllowedDenom{Authority: auth(a), BankDenom: d, DisplayDenom: strings.TrimPrefix(d, "u") + Pick(g.R, []string{"", "", "x"}), Exponent: 6}
+		d := g.anyDenom()
+		disp := strings.TrimPrefix(d, "u")
+		if strings.HasPrefix(d, "ibc/") {
+			disp = "usdc.axl"
+		}
+		return &markettypes.MsgAddAllowedDenom{Authority: auth(a), BankDenom: d, DisplayDenom: disp + Pick(g.R, []string{"", "", "x"}), Exponent: 6}
 	})
 	regKind("RemoveDenom", true, func(g *Gen, a *Actor, v *Snapshot, mode int) sdk.Msg {
-		return &markettypes.MsgRemoveAllowedDenom{Authority: auth(a), Denom: Pick(g.R, workDenoms)}
+		return &markettypes.MsgRemoveAllowedDenom{Authority: auth(a), Denom: g.anyDenom()}
 	})
 	regKind("SetFeeParams", true, func(g *Gen, a *Actor, v *Snapshot, mode int) sdk.Msg {
 		vals := g.P.feeRateValues()
@@ -1090,6 +1112,9 @@ func (g *Gen) issuances(p int, mode int) []*basetypes.BatchIssuance {
 }
 
 type originSeed struct{ id, source, contract string }
+
+// reference ids: any string up to 32 bytes; some are prefixes / case variants of others
+var refIDs = []string{"VCS-001", "VCS-002", "R1", "BR-7", "R10", "r1", "VCS-0010", "Ünï 1", "R1 ", "0123456789abcdef0123456789abcdef"}
 
 var chainSpellings = []string{"polygon", "Polygon", "POLYGON", "ethereum", "Ethereum", "celo"}
 
